@@ -94,14 +94,19 @@ class PairV:
 
 
 class MutexV:
-    def __init__(self):
-        self.locked = False
+    def __init__(self, flavour: str = 'plain'):
+        self.locked = False                 # held exclusively
+        self.flavour = flavour              # plain | recursive | shared
+        self.depth = 0                      # recursive: nesting of the owner
+        self.owner = None
+        self.readers: List[str] = []        # shared: threads holding it shared
         self.events: List[str] = []
 
 
 class UniqueLockV:
-    def __init__(self, mutex: Optional[Loc], owns: bool):
-        self.mutex, self.owns = mutex, owns
+    """std::unique_lock / lock_guard / scoped_lock (one mutex) / shared_lock (shared=True)"""
+    def __init__(self, mutex: Optional[Loc], owns: bool, shared: bool = False):
+        self.mutex, self.owns, self.shared = mutex, owns, shared
 
 
 class UniquePtrV:
@@ -177,6 +182,12 @@ class UninitRead(Exception):
     """a member is read before its constructor initialiser ran (declaration order)"""
 
 
+class MapIterV:
+    """iterator into a std::map: the entry (PairV) or end()"""
+    def __init__(self, container, entry):
+        self.container, self.entry = container, entry
+
+
 class LockTag:
     """std::defer_lock / std::try_to_lock / std::adopt_lock"""
     def __init__(self, name: str):
@@ -219,10 +230,13 @@ def type_kind(t: str) -> str:
         return 'optional'
     if base == 'std::vector':
         return 'vector'
-    if base == 'std::mutex':
+    if base in ('std::mutex', 'std::recursive_mutex', 'std::shared_mutex', 'std::shared_timed_mutex',
+                'std::timed_mutex'):
         return 'mutex'
-    if base == 'std::unique_lock':
+    if base in ('std::unique_lock', 'std::lock_guard', 'std::scoped_lock'):
         return 'unique_lock'
+    if base == 'std::shared_lock':
+        return 'shared_lock'
     if base == 'std::unique_ptr':
         return 'unique_ptr'
     if base == 'std::reference_wrapper' or base == 'reference_wrapper':
@@ -247,6 +261,7 @@ class Machine:
         self.prog = prog
         self.oracle = oracle            # decides symbolic branches (see explore.py)
         self.frames: List[Frame] = []
+        self.statics: Dict[Tuple, Loc] = {}     # static / thread_local / namespace-scope variables
         self.trace: List[Tuple] = []    # observable events recorded by externals / intrinsics
         self.log = LogSink()
         self.steps = 0
@@ -354,7 +369,9 @@ class Machine:
         if kind == 'vector':
             return VecV()
         if kind == 'mutex':
-            return MutexV()
+            return MutexV('recursive' if 'recursive' in type_str else 'shared' if 'shared' in type_str else 'plain')
+        if kind in ('unique_lock', 'shared_lock'):
+            return UniqueLockV(None, False, shared=(kind == 'shared_lock'))
         if kind == 'scalar':
             return 0 if 'bool' not in type_str else False
         if kind == 'pointer':
@@ -553,18 +570,48 @@ class Machine:
                 if isinstance(sub, Loc) and isinstance(sub.v, UniqueLockV) and sub.v.owns:
                     self.unlock(sub.v)
 
-    def lock(self, ul: UniqueLockV):
+    _tid = 'main'
+
+    def tid(self) -> str:
+        return self._tid
+
+    def can_take(self, m: MutexV, shared: bool, me: str) -> bool:
+        if m.flavour == 'recursive' and m.locked and m.owner == me:
+            return True
+        if shared:
+            return not m.locked
+        return not m.locked and not m.readers
+
+    def take(self, m: MutexV, shared: bool, me: str):
+        if shared:
+            m.readers.append(me)
+        else:
+            m.locked = True
+            m.owner = me
+            m.depth += 1
+
+    def give(self, m: MutexV, shared: bool, me: str):
+        if shared:
+            if me in m.readers:
+                m.readers.remove(me)
+        else:
+            m.depth = max(0, m.depth - 1)
+            if m.depth == 0:
+                m.locked = False
+                m.owner = None
+
+    def lock(self, ul: UniqueLockV, wait: bool = True):
         m: MutexV = self.load(ul.mutex)
-        if m.locked:
+        if not self.can_take(m, ul.shared, self.tid()):
             raise Deadlock('mutex locked twice on one thread of execution')
-        m.locked = True
+        self.take(m, ul.shared, self.tid())
         m.events.append('lock')
         ul.owns = True
         self.trace.append(('mutex', 'lock'))
 
     def unlock(self, ul: UniqueLockV):
         m: MutexV = self.load(ul.mutex)
-        m.locked = False
+        self.give(m, ul.shared, self.tid())
         m.events.append('unlock')
         ul.owns = False
         self.trace.append(('mutex', 'unlock'))
@@ -757,6 +804,14 @@ class Machine:
             init = next((c for c in node.get('inner', []) if 'kind' in c), None)
             fr = self.frame()
             mark = len(fr.temps)
+            if node.get('storageClass') == 'static' or node.get('tls'):
+                # function-local static / thread_local: initialised once (per thread), lives on
+                key = (node['id'], self.tid() if node.get('tls') else None)
+                if key not in self.statics:
+                    self.statics[key] = self._init_static(node, init, vtype)
+                    self.end_full_expression(mark)
+                fr.vars[node['id']] = self.statics[key]
+                return
             if vtype.rstrip().endswith('&'):
                 fr.vars[node['id']] = self.lv(init)
                 self.end_full_expression(mark)
@@ -775,6 +830,35 @@ class Machine:
             return
         else:
             raise Unsupported(f'declaration {kind}')
+
+    def _init_static(self, node: dict, init: Optional[dict], vtype: str) -> Loc:
+        if init is None:
+            v = self.default_value(node.get('type', {}).get('desugaredQualType') or vtype, node.get('name'))
+        else:
+            v = self.rv(init)
+            if isinstance(v, Loc):
+                v = self.copy_value(self.load(v))
+        return Loc(v, 'static ' + node.get('name', 'var'))
+
+    def global_var(self, ref: dict) -> Optional[Loc]:
+        """namespace-scope variable or static data member, initialised at first use (its initialiser has no
+        access to locals); thread_local ones per thread"""
+        run = self.frame().run
+        node = self.prog.var_decls.get((run, ref['id']))
+        if node is None:
+            node = next((n for (r, i), n in self.prog.var_decls.items() if i == ref['id']), None)
+        if node is None:
+            return None
+        key = (node['id'], self.tid() if node.get('tls') else None)
+        if key not in self.statics:
+            init = next((c for c in node.get('inner', []) if 'kind' in c and c['kind'] != 'FullComment'), None)
+            vtype = node.get('type', {}).get('qualType', '')
+            self.push_frame(run, None, 'init of ' + node.get('name', 'global'))
+            try:
+                self.statics[key] = self._init_static(node, init, vtype)
+            finally:
+                self.pop_frame()
+        return self.statics[key]
 
     def exec_for_range(self, node: dict):
         inner = [c for c in node.get('inner', []) if c]
@@ -855,6 +939,9 @@ class Machine:
                 for fr in (self.frame(),):
                     if ref['id'] in fr.vars:
                         return fr.vars[ref['id']]
+                g = self.global_var(ref)
+                if g is not None:
+                    return g
                 if ref.get('name') in ('defer_lock', 'try_to_lock', 'adopt_lock') and \
                         '_lock_t' in ref.get('type', {}).get('qualType', ''):
                     return Loc(LockTag(ref['name']), ref['name'])
@@ -864,8 +951,14 @@ class Machine:
             base = self._only(node)
             if node.get('isArrow'):
                 p = self.rv(base)
+                if isinstance(p, Loc):
+                    p = self.load(p)
                 if isinstance(p, UniquePtrV):
                     p = PtrV(p.ptr)
+                if isinstance(p, MapIterV):
+                    if p.entry is None:
+                        raise Unsupported('dereference of end()')
+                    p = PtrV(Loc(p.entry, 'map-entry'))
                 if not isinstance(p, PtrV) or p.target is None:
                     raise Unsupported('-> on null / non-pointer')
                 base_loc = p.target
@@ -1078,6 +1171,14 @@ class Machine:
         return text
 
     def equal(self, a, b):
+        va = self.load(a) if isinstance(a, Loc) else a
+        vb = self.load(b) if isinstance(b, Loc) else b
+        if isinstance(va, MapIterV) and isinstance(vb, MapIterV):
+            return va.entry is vb.entry or (va.entry is not None and vb.entry is not None
+                                            and va.entry.first == vb.entry.first)
+        return self._equal(a, b)
+
+    def _equal(self, a, b):
         if isinstance(a, Loc):
             a = self.load(a)
         if isinstance(b, Loc):
@@ -1139,11 +1240,13 @@ class Machine:
             if not args:
                 return FuncV('empty')
             return self.to_funcv(args[0])
-        if kind == 'unique_lock':
+        if kind in ('unique_lock', 'shared_lock'):
+            if not args:
+                return UniqueLockV(None, False, shared=(kind == 'shared_lock'))
             src = args[0]
             val = self.load(src) if isinstance(src, Loc) else src
             if isinstance(val, MutexV):
-                ul = UniqueLockV(src, False)
+                ul = UniqueLockV(src, False, shared=(kind == 'shared_lock'))
                 tag = None
                 if len(args) > 1:
                     tag = self.load(args[1]) if isinstance(args[1], Loc) else args[1]
@@ -1154,11 +1257,11 @@ class Machine:
                 elif tag.name == 'adopt_lock':
                     ul.owns = True
                 elif tag.name == 'try_to_lock':
-                    if not val.locked:
-                        self.lock(ul)
+                    if self.can_take(val, ul.shared, self.tid()):
+                        self.lock(ul, wait=False)
                 return ul
             if isinstance(val, UniqueLockV):          # move construction
-                out = UniqueLockV(val.mutex, val.owns)
+                out = UniqueLockV(val.mutex, val.owns, val.shared)
                 val.owns = False
                 val.mutex = None
                 return out
@@ -1266,7 +1369,7 @@ class Machine:
         for k, loc in src.fields.items():
             v = self.load(loc)
             if isinstance(v, UniqueLockV):
-                nv = UniqueLockV(v.mutex, v.owns)
+                nv = UniqueLockV(v.mutex, v.owns, v.shared)
                 v.owns, v.mutex = False, None
                 out.fields[k] = Loc(nv, k)
             elif isinstance(v, StructV):
